@@ -52,7 +52,7 @@ PROP = {
         "futures are polled by Executor::tick on the thread that created the executor; the harness never sends the Executor",
         "panic payloads and outputs are plain values with counting destructors that never panic",
         "single-thread programs are deterministic (needed for the exact model and the panic differential)",
-        "native hang-type conditions (a foreign call not returning after 5e6 drain+yield rounds) are inconclusive, never violations",
+        "native hang-type conditions (a foreign call not returning after 5e5 drain+yield rounds, the last 4e5 of them 100 us apart) are inconclusive, never violations",
     ],
     "legs": [
         {"name": "miri-st", "build": "miri", "pkg": "vpure", "cmd": "c04", "shards": {"quick": 2, "thorough": 2},
